@@ -24,7 +24,7 @@ RULE = (
     "(xpath text, tree fingerprint)"
 )
 ASSUMPTIONS = ["reference evaluator encodes the documented semantics (virtual super-root; the root satisfies no field/index constraint)"]
-MUST_SEE = ["index_ge_257_match", "second_tree_sharing_nodes", "late_defined_class", "index_ge_10_match", "first_step_field", "root_matches", "two_anywhere", "nonempty", "relative_spelling", "index_only_step"]
+MUST_SEE = ["refused_text_before_compilation", "index_ge_257_match", "second_tree_sharing_nodes", "late_defined_class", "index_ge_10_match", "first_step_field", "root_matches", "two_anywhere", "nonempty", "relative_spelling", "index_only_step"]
 CONFIG = {
     "quick": {"shards": 16, "trees": 50, "xpaths": 70, "watchdog_s": 300},
     "thorough": {"shards": 32, "trees": 300, "xpaths": 120, "watchdog_s": 3000},
@@ -109,6 +109,12 @@ def run_shard(ctx):
             exp_ids = sorted(id(obj[id(p)]) for p in exp)
             ctx.evaluations += 1
             detail = {"xpath": text, "ast": path, "tree": spec_json(s)}
+            if rng.random() < 0.2:
+                # a text that is refused is compiled right before (nothing of it may survive into the next compilation)
+                try:
+                    ASTXpath(rng.choice(["//", "//@items[", "NoSuchClass7", f"/{P}Leaf//", "///", f"//@[1]{P}Leaf", f"/{P}List//@items["]))
+                except Exception:  # noqa: BLE001
+                    ctx.count("refused_text_before_compilation")
             try:
                 xp = ASTXpath(text)
             except Exception as e:  # noqa: BLE001
